@@ -1,4 +1,5 @@
 import OsmVerif.Lemmas.Walk
+import OsmVerif.Gen.Annotate
 /-!
 # C14 — child-first relation ordering: once, children first, always ends
 
@@ -297,6 +298,30 @@ theorem close_producer_terminates (s s' : Sys) (hc : s.cancelled = true) (h : PS
   | finish hw => simp [hc, hw, prank]
   | handoff id hs hn => simp [hc, hs, prank]
   | abortSend id hs _ => simp [hc, hs, prank]
+
+def infixOf (sub : List Char) : List Char → Bool
+  | [] => sub.isEmpty
+  | c :: cs => sub.isPrefixOf (c :: cs) || infixOf sub cs
+
+def hasSub (sub s : String) : Bool := infixOf sub.toList s.toList
+
+open OsmVerif.Gen.Annotate in
+/-- the premises of the producer's transition system in the source (`Gen.Annotate`, regenerated from order.go):
+    the walk has exactly one channel send; it is the last thing the walk does, inside a `select` whose other
+    branch is `<-o.ctx.Done()` returning the context's error (`abortSend`), right after the `o.ctx.Err()` test
+    (`emit` only while not cancelled); `Close` cancels and waits; the goroutine signals the wait group and closes
+    `out` when it returns; `Next` waits on `out` or on `Done` -/
+theorem producer_protocol_pinned :
+    orderWalkBody.filter (hasSub "o.out <-") = ["case o.out <- id:"] ∧
+    orderWalkBody.drop (orderWalkBody.length - 10) =
+      ["if o.ctx.Err() != nil {", "return o.ctx.Err()", "}", "o.visited[id] = struct{}{}", "select {", "case o.out <- id:",
+       "case <-o.ctx.Done():", "return o.ctx.Err()", "}", "return nil"] ∧
+    orderCloseBody = ["o.done()", "o.wg.Wait()"] ∧
+    orderNewBody.contains "o.wg.Add(1)" = true ∧ orderNewBody.contains "defer o.wg.Done()" = true ∧
+    orderNewBody.contains "defer close(o.out)" = true ∧
+    orderNextBody = ["if o.err != nil || o.ctx.Err() != nil {", "return false", "}", "select {", "case id := <-o.out:",
+      "if id == 0 {", "return false", "}", "o.id = id", "return true", "case <-o.ctx.Done():", "return false", "}"] := by
+  decide +kernel
 
 /-! ## non-vacuity: a 2-cycle with a self loop, and a DAG -/
 def exCyc : Hist := fun n => if n = 1 then some [1, 2] else if n = 2 then some [1] else none
